@@ -305,3 +305,33 @@ def gen_request(rng):
         if rng.random() < p:
             case['ius'] = gen_cond_date(rng, lm_text, mt)
     return case
+
+
+def enum_decision_table():
+    """Systematic small scope for the validators, run in every tier: every combination of
+    If-Match / If-None-Match in {absent, current, other, *, list with current, weak form of current} x
+    If-Modified-Since / If-Unmodified-Since in {absent, equal, different} x GET/HEAD/POST x
+    (file with explicit ETag x Range none/satisfiable/unsatisfiable | generated body with autotags)."""
+    mtime = 1000000000
+    lm = httpdate(mtime)
+    other_date = httpdate(mtime + 1)
+    out = []
+    for kind in ('file', 'gen'):
+        base = {'op': 'Q', 'kind': kind, 'proto': '1.1', 'base': 200, 'mtime': mtime, 'len': 14, 'ca': 1, 'cb': 0}
+        if kind == 'file':
+            base.update(etags=1, hetag='"v1"', lm=None)
+            cur = '"v1"'
+            ranges = [None, 'bytes=2-5', 'bytes=14-']
+        else:
+            base.update(etags=2, hetag=None, lm=lm)
+            cur = '"%s"' % hashlib.md5(content_bytes(base)).hexdigest()
+            ranges = [None]
+        tags = [None, cur, '"other"', '*', '"a", %s, "b"' % cur, 'W/' + cur]
+        dates = [None, lm, other_date]
+        for method, im, inm, ims, ius, rng in itertools.product(('GET', 'HEAD', 'POST'), tags, tags, dates, dates, ranges):
+            c = dict(base, method=method)
+            for k, v in (('im', im), ('inm', inm), ('ims', ims), ('ius', ius), ('range', rng)):
+                if v is not None:
+                    c[k] = v
+            out.append(c)
+    return out
